@@ -38,7 +38,8 @@ type rwCase struct {
 	Cap      int          `json:"cap"`
 	Gap      int          `json:"gap"`
 	NoRetry  bool         `json:"no_retry,omitempty"`
-	Pre      int          `json:"pre"` // resources created before the watch starts
+	Pre      int          `json:"pre"`            // resources created before the watch starts
+	Tail     int          `json:"tail,omitempty"` // kindbmtail: WithKindTailEvents(Tail)
 	Plan     []watchFault `json:"plan"`
 	Steps    []rwStep     `json:"steps"`
 	FinalNap int64        `json:"final_nap"`
@@ -174,6 +175,14 @@ func runRemoteWatch(t *testing.T, c rwCase) (coq string, problems []string, flag
 				refErr = backing.WatchKind(ctx, kindMD, refCh, kopts...)
 				remErr = remote.WatchKind(ctx, kindMD, remCh, kopts...)
 			}
+		case "kindbmtail":
+			// initial bookmark + backlog: the Noop must carry the position before the backlog, or a failure right after
+			// it resumes past the backlog
+			kopts = append(kopts, state.WithBootstrapBookmark(true), state.WithKindTailEvents(c.Tail))
+			startBoth = func() {
+				refErr = backing.WatchKind(ctx, kindMD, refCh, kopts...)
+				remErr = remote.WatchKind(ctx, kindMD, remCh, kopts...)
+			}
 		case "bootstrap":
 			kopts = append(kopts, state.WithBootstrapContents(true))
 			startBoth = func() {
@@ -236,7 +245,7 @@ func runRemoteWatch(t *testing.T, c rwCase) (coq string, problems []string, flag
 				}
 
 				return 0
-			case c.Kind == "kindbm":
+			case c.Kind == "kindbm" || c.Kind == "kindbmtail":
 				if len(evs) > 0 && evs[0].Type == state.Noop {
 					return 1
 				}
@@ -314,6 +323,13 @@ func runRemoteWatch(t *testing.T, c rwCase) (coq string, problems []string, flag
 		synctest.Wait()
 
 		p0 := c.Pre // log entries before the watch
+
+		// a tail start moves the start of the live part back; the model sees the backlog as commits right after the start
+		backlog := 0
+		if c.Kind == "kindbmtail" {
+			backlog = min(c.Tail, c.Pre, c.Cap-c.Gap)
+			p0 -= backlog
+		}
 		appends := 0
 		vers := map[string]resource.Resource{}
 
@@ -403,7 +419,7 @@ func runRemoteWatch(t *testing.T, c rwCase) (coq string, problems []string, flag
 		// ---- reference: initial part and positions of the live part ----
 		nInitRef := initCountOf(ref)
 
-		matching := make([]bool, p0+appends)
+		matching := make([]bool, c.Pre+appends)
 
 		for _, e := range ref[nInitRef:] {
 			if !e.HasBM || e.Pos < 0 || int(e.Pos) >= len(matching) {
@@ -488,6 +504,10 @@ func runRemoteWatch(t *testing.T, c rwCase) (coq string, problems []string, flag
 
 		// ---- transport trace -> model choices ----
 		var choices []string
+
+		for range backlog {
+			choices = append(choices, "SAppend")
+		}
 
 		mi := 0
 		first := map[int]bool{} // streams whose ready message was delivered
@@ -647,7 +667,7 @@ func containsStr(s, sub string) bool {
 
 func genRemoteWatch(r *rng) rwCase {
 	c := rwCase{
-		Kind:     pick(r, []string{"single", "kind", "kindbm", "bootstrap", "aggregated", "selector", "kindfrombm", "singlefrombm"}),
+		Kind:     pick(r, []string{"single", "kind", "kindbm", "bootstrap", "aggregated", "selector", "kindfrombm", "singlefrombm", "kindbmtail"}),
 		Cap:      pick(r, []int{4, 8, 8, 64}),
 		Gap:      1,
 		NoRetry:  r.chance(1, 10),
@@ -657,6 +677,11 @@ func genRemoteWatch(r *rng) rwCase {
 
 	if c.Kind == "single" && r.chance(1, 2) {
 		c.Pre = 0
+	}
+
+	if c.Kind == "kindbmtail" {
+		c.Pre = 1 + r.intn(3)
+		c.Tail = 1 + r.intn(4)
 	}
 
 	// fault plan: the first stream survives at least its ready message
@@ -748,9 +773,9 @@ func TestC13(t *testing.T) {
 		r := newRng(seed(), "C13")
 
 		// corpus: every single break position on a short stream, per flavour
-		for _, k := range []string{"single", "kind", "kindbm", "bootstrap", "aggregated", "selector", "kindfrombm", "singlefrombm"} {
+		for _, k := range []string{"single", "kind", "kindbm", "bootstrap", "aggregated", "selector", "kindfrombm", "singlefrombm", "kindbmtail"} {
 			for b := 1; b <= 5; b++ {
-				cases = append(cases, rwCase{Kind: k, Cap: 8, Gap: 1, Pre: 2, FinalNap: int64(time.Hour), Plan: []watchFault{{BreakAfter: b}},
+				cases = append(cases, rwCase{Kind: k, Cap: 8, Gap: 1, Pre: 2, Tail: 2, FinalNap: int64(time.Hour), Plan: []watchFault{{BreakAfter: b}},
 					Steps: []rwStep{
 						{Op: "create", ID: "a", Label: "v"}, {Op: "update", ID: "a"}, {Op: "create", ID: "b", Label: "w"}, {Op: "label", ID: "b", Label: "v"},
 						{Op: "update", ID: "a"}, {Op: "label", ID: "a", Label: "w"}, {Op: "destroy", ID: "b"}, {Op: "sleep", D: int64(time.Minute)}, {Op: "update", ID: "a"},
